@@ -17,7 +17,7 @@ from checks.common import Case, run_cases
 
 LEVEL = "fault_enumeration"
 NAMES = ["pa", "pb", "pc", "pd"]
-KINDS = ["fn", "member", "struct", "variant"]
+KINDS = ["fn", "member", "struct", "variant", "dotvariant"]
 
 
 def decl(kind, n, mask):
@@ -34,7 +34,9 @@ def decl(kind, n, mask):
     if kind == "struct":
         fields = "\n".join("  " + p for p in ps)
         return "type Sx%s = {\n%s\n}\n" % (tag, fields), "Sx%s" % tag
-    if kind == "variant":
+    if kind in ("variant", "dotvariant"):
+        # dotvariant: the same constructor written with a leading dot where the type is known
+        tag = tag + ("d" if kind == "dotvariant" else "")
         return "type Ex%s = | Vx%s(%s) | Wx%s\n" % (tag, tag, ", ".join(ps), tag), "Ex%s.Vx%s" % (tag, tag)
 
 
@@ -50,6 +52,9 @@ def call_text(kind, callee, n, args):
         return "let r = %s(%s)\nprintln(%s)" % (callee, a, shown)
     vn = callee.split(".")[1]
     binds = ", ".join(NAMES[:n])
+    if kind == "dotvariant":
+        return "let r: %s = .%s(%s)\nmatch r {\n  .%s(%s) -> println(%s)\n  _ -> println(\"other\")\n}" % (
+            callee.split(".")[0], vn, a, vn, binds, ' .. "," .. '.join(NAMES[:n]))
     return "let r = %s(%s)\nmatch r {\n  .%s(%s) -> println(%s)\n  _ -> println(\"other\")\n}" % (
         callee, a, vn, binds, ' .. "," .. '.join(NAMES[:n]))
 
@@ -170,6 +175,9 @@ def dexpr_call(kind, callee, names, argtext):
     if kind == "struct":
         return "{\n  let r = %s(%s)\n  println(%s)\n}" % (callee, argtext, ' .. "," .. '.join("r." + x for x in names))
     vn = callee.split(".")[1]
+    if kind == "dotvariant":
+        return "{\n  let r: %s = .%s(%s)\n  match r {\n    .%s(%s) -> println(%s)\n    _ -> println(\"other\")\n  }\n}" % (
+            callee.split(".")[0], vn, argtext, vn, ", ".join(names), ' .. "," .. '.join(names))
     return "{\n  let r = %s(%s)\n  match r {\n    .%s(%s) -> println(%s)\n    _ -> println(\"other\")\n  }\n}" % (
         callee, argtext, vn, ", ".join(names), ' .. "," .. '.join(names))
 
